@@ -181,17 +181,19 @@ pub fn gated(schedule: &[usize], threads: usize, calls: usize) -> Value {
     json!({"names": names, "total": flat.len(), "distinct": distinct.len()})
 }
 
-/// One run of `threads` concurrent calls under a schedule of thread turns (one turn = one primitive on the counter, or
-/// the return of the call).  Turns of a thread whose call has returned are skipped; when the schedule is used up the
-/// remaining threads run freely.  Returns the paths in thread order (None if a call panicked).
-fn run_schedule(schedule: &[usize], threads: usize, part: &str) -> Vec<Option<String>> {
+/// One run of `threads` concurrent threads under a schedule of thread turns (one turn = one primitive on the counter, or
+/// the return of a call).  Turns of a thread that has finished are skipped; when the schedule is used up the remaining
+/// threads run freely.  In the plain mode every thread makes one temp_file_name call; in the mixed mode thread 1 calls
+/// serialize::test(.., remove = true) - whose internally taken path a probe value discovers - and then temp_file_name,
+/// and the other threads call temp_file_name twice.  Returns the paths in thread order (None if a call panicked).
+fn run_schedule(schedule: &[usize], threads: usize, part: &str, mixed: bool) -> Vec<Option<String>> {
     struct Ctl { pos: usize, running: Option<usize>, done: Vec<bool> }
     impl Ctl { fn skip(&mut self, sched: &[usize]) { while self.pos < sched.len() && self.done[sched[self.pos]] { self.pos += 1; } } }
     let ctl = Arc::new((Mutex::new(Ctl { pos: 0, running: None, done: vec![false; threads + 2] }), Condvar::new()));
     let sched: Arc<Vec<usize>> = Arc::new(schedule.iter().copied().filter(|t| *t >= 1 && *t <= threads).collect());
     let (gate_ctl, gate_sched) = (ctl.clone(), sched.clone());
     hooks::set_gate(Some(Arc::new(move |tag: usize, _op: &'static str| {
-        if tag == 0 || tag > gate_ctl.0.lock().unwrap().done.len() - 2 { return; }
+        if tag == 0 || tag > threads { return; }
         let (m, cv) = &*gate_ctl;
         let mut c = m.lock().unwrap();
         if c.running == Some(tag) { c.running = None; c.pos += 1; cv.notify_all(); }
@@ -207,31 +209,50 @@ fn run_schedule(schedule: &[usize], threads: usize, part: &str) -> Vec<Option<St
         let (ctl2, sched2, part2) = (ctl.clone(), sched.clone(), part.to_string());
         handles.push(std::thread::spawn(move || {
             hooks::set_thread_tag(t);
-            let p = guarded(|| temp_file_name(&part2));
-            // the return of the call is a scheduled step as well
-            let (m, cv) = &*ctl2;
-            let mut c = m.lock().unwrap();
-            if c.running == Some(t) { c.running = None; c.pos += 1; cv.notify_all(); }
-            loop {
-                c.skip(&sched2);
-                if c.running.is_none() && (c.pos >= sched2.len() || sched2[c.pos] == t) { if c.pos < sched2.len() { c.pos += 1; } break; }
-                let (g, _) = cv.wait_timeout(c, std::time::Duration::from_millis(50)).unwrap();
-                c = g;
+            // the return of every call is a scheduled step as well
+            let ret = |last: bool| {
+                let (m, cv) = &*ctl2;
+                let mut c = m.lock().unwrap();
+                if c.running == Some(t) { c.running = None; c.pos += 1; cv.notify_all(); }
+                loop {
+                    c.skip(&sched2);
+                    if c.running.is_none() && (c.pos >= sched2.len() || sched2[c.pos] == t) { if c.pos < sched2.len() { c.pos += 1; } break; }
+                    let (g, _) = cv.wait_timeout(c, std::time::Duration::from_millis(50)).unwrap();
+                    c = g;
+                }
+                if last { c.done[t] = true; }
+                cv.notify_all();
+            };
+            let mut got: Vec<Option<String>> = Vec::new();
+            let direct = || guarded(|| temp_file_name(&part2)).ok().map(|p| p.to_string_lossy().to_string());
+            if !mixed {
+                got.push(direct());
+                ret(true);
+            } else if t == 1 {
+                let probe = Probe { part: part2.clone(), seen: Default::default() };
+                let r = guarded(|| simple_sds::serialize::test(&probe, &part2, Some(1), true));
+                let seen = probe.seen.borrow().clone();
+                got.push(if r.is_ok() && seen.len() == 1 { Some(std::env::temp_dir().join(&seen[0]).to_string_lossy().to_string()) } else { None });
+                ret(false);
+                got.push(direct());
+                ret(true);
+            } else {
+                got.push(direct());
+                ret(false);
+                got.push(direct());
+                ret(true);
             }
-            c.done[t] = true;
-            cv.notify_all();
-            drop(c);
-            p.ok().map(|p| p.to_string_lossy().to_string())
+            got
         }));
     }
-    let names: Vec<Option<String>> = handles.into_iter().map(|h| h.join().unwrap_or(None)).collect();
+    let names: Vec<Option<String>> = handles.into_iter().flat_map(|h| h.join().unwrap_or_else(|_| vec![None])).collect();
     hooks::set_gate(None);
     hooks::set_thread_tag(0);
     names
 }
 
 /// Replays every schedule generated by mech/Sched on the real code and records what the calls returned.
-pub fn record_schedules(cases: &[Value], path: &str) -> Value {
+pub fn record_schedules(cases: &[Value], path: &str, mixed: bool) -> Value {
     let mut out = TraceOut::new();
     let mut dup = 0usize;
     let mut seen = std::collections::HashSet::new();
@@ -239,7 +260,7 @@ pub fn record_schedules(cases: &[Value], path: &str) -> Value {
         let threads = c["threads"].as_u64().unwrap() as usize;
         let sched: Vec<usize> = c["s"].as_array().unwrap().iter().map(|x| x.as_u64().unwrap() as usize).collect();
         let part = format!("sched{}", i % 7);
-        let got = run_schedule(&sched, threads, &part);
+        let got = run_schedule(&sched, threads, &part, mixed);
         let names: Vec<String> = got.iter().flatten().map(|p| std::path::PathBuf::from(p).file_name().unwrap().to_str().unwrap().to_string()).collect();
         for n in names.iter() { if !seen.insert(n.clone()) { dup += 1; } }
         out.push(json!({"e": "sched", "s": sched, "completed": got.iter().all(|p| p.is_some()), "has_part": names.iter().all(|n| n.contains(&part)), "names": names}));
